@@ -172,8 +172,10 @@ func runC18(e *Env, p *Plan) {
 	}
 	if done {
 		for _, d := range e.N.Dials() {
-			if d.Step > a.CloseDoneAt && d.Addr == addr && d.G != "" && isClientDial(d.G) {
-				e.Violate("C18.no-dial-after-close", "a dial was started at step %d (%v), after the closer returned at step %d", d.Step, d.At, a.CloseDoneAt)
+			// CallStep: the moment the library decided to dial; a dial already under
+			// way when the closer returns is not a new reconnection attempt
+			if d.CallStep > a.CloseDoneAt && d.Addr == addr && d.G != "" && isClientDial(d.G) {
+				e.Violate("C18.no-dial-after-close", "a dial was started at step %d (%v), after the closer returned at step %d", d.CallStep, d.At, a.CloseDoneAt)
 			}
 		}
 	}
